@@ -1344,6 +1344,30 @@ func mismatchShard(tier string) mc.Shard {
 					}
 				}
 			}
+			// mismatch in the kind only: the same base and index offset under another
+			// interpolation (the payload of the mapping block is then byte for byte the same)
+			for _, ok := range []byte{'G', 'I', 'C'} {
+				if ok == a.Kind {
+					continue
+				}
+				for _, d := range []float64{0, 2.5} {
+					sa := MapSpec{Kind: a.Kind, Gamma: g, Offset: o + d}
+					sb := MapSpec{Kind: ok, Gamma: g, Offset: o + d}
+					for _, exact := range []bool{false, true} {
+						recv := NewSkSlot(sa.New(), Kind{K: 'P'}, exact)
+						recv.Q().Add(1)
+						other := NewSkSlot(sb.New(), Kind{K: 'D'}, exact)
+						other.Q().Add(2)
+						res.Evaluations += 2
+						if err := recv.Q().DecodeAndMergeWith(encodeOf(other.Q(), false)); err == nil {
+							fails = append(fails, mc.Fail{Clause: "C08.mapping-mismatch", Detail: fmt.Sprintf("a %s receiver accepted the encoding of a %s sketch (same base and offset, another kind; exact=%v)", sa, sb, exact)})
+						}
+						if _, err := DecodeSlot(encodeOf(other.Q(), false), Kind{K: 'S'}, exact, sa.New()); err == nil {
+							fails = append(fails, mc.Fail{Clause: "C08.mapping-mismatch", Detail: fmt.Sprintf("decoding the encoding of a %s sketch with the supplied mapping %s succeeded (same base and offset, another kind; exact=%v)", sb, sa, exact)})
+						}
+					}
+				}
+			}
 			// no mapping in the stream and none supplied
 			for _, exact := range []bool{false, true} {
 				src := NewSkSlot(a.New(), Kind{K: 'S'}, exact)
